@@ -391,3 +391,48 @@ def _(c):
     c.pure()
     c.requires("wf", lambda x: wf0(x))
     c.ensures("result == max(0, Ht(root)): the maximum depth of all nodes", lambda x: x.r == _max(0, L.height_spec(x.h0)[0](x.h0._root(x.a.self))))
+
+
+# ------------------------------------------------------------------ visit helpers: the callback's event trace against the visit grammar
+def _others_untouched(x, cb):
+    cbv = L.fresh("cbv", L.Val)
+    return z3.ForAll([cbv], Implies(cbv != cb, x.h.tlen(cbv) == x.h0.tlen(cbv)), patterns=[x.h.tlen(cbv)])
+
+
+def _visit_helper(name, which):
+    """_visit_pre / _visit_post(self, callback, memo): the events appended to the callback's trace are exactly a pre- /
+    post-order visit of the branch `self` (logic.visit_spec): normal return = ran to completion; StopTraversal = ended by a
+    stop event; any other exception = ended by an error event.  The tree is not written."""
+    @contract(NQ + name, props=("C06",))
+    def _(c):
+        c.param("self", "node").param("callback", "cb").param("memo", "val")
+        c.families = ("plain", "typed")
+        c.result_tag = "none"
+        c.modifies("tlen")
+        c.requires("wf", lambda x: And(wf0(x), self_in_P(x)))
+
+        def seg(x, st):
+            V = L.visit_spec(x.h0)[0 if which == "pre" else 2]
+            cb = x.a.callback
+            return And(V(cb, x.a.self, x.h0.tlen(cb), x.h.tlen(cb), st), _others_untouched(x, cb))
+
+        c.ensures(f"the new events are the complete {which}-order visit of the branch", lambda x: seg(x, L.ST_DONE))
+        stop = c.may_raise("StopTraversal", ensures=lambda x: seg(x, L.EV_STOP), name="ended by a stop event")
+        for exc in ("ValueError", "TypeError", "UserError", "SelectBranch"):
+            c.may_raise(exc, ensures=lambda x: seg(x, L.EV_ERR), name=f"ended by an error event ({exc})")
+        for r in c.raises_:
+            r.havoc = ("tlen",)
+
+        def inv(x):
+            VK = L.visit_spec(x.h0)[1 if which == "pre" else 3]
+            cb = x.a.callback
+            first = x.h0.tlen(cb) + (1 if which == "pre" else 0)
+            return And(VK(cb, x.a.self, x.k, first, x.h.tlen(cb)), _others_untouched(x, cb))
+
+        c.loop(1).invariant = inv
+        c.loop(1).modifies = ("tlen",)
+    return _
+
+
+_visit_helper("_visit_pre", "pre")
+_visit_helper("_visit_post", "post")
